@@ -35,6 +35,7 @@ union ForeignU
     fb Int32
 
 alias ForeignA = List(Foreign)
+alias ForeignNull = Foreign?
 '''
 
 USER_TYPES_NA = '''
@@ -42,6 +43,11 @@ struct Plain
     a Int32
     b String = "dflt"
     c Int32?
+
+struct Kid extends Plain
+    "a child that adds a required field of its own"
+    k Int32
+    kn String?
 
 struct Empty
     "no fields"
@@ -135,6 +141,10 @@ alias APrim = Int32(min_value=-5, max_value=5)
 alias AStr = String(pattern="[a-c]+")
 alias APlain = Plain
 alias ANull = Plain?
+alias ANullOpt = AllOpt?
+alias ANullE = Empty?
+alias ANullU = UClosed?
+alias ANullTs = Timestamp("%Y")?
 alias AList = List(Int32)
 alias AliasA = APlain
 alias AliasU = UOpen
@@ -144,9 +154,9 @@ alias ARes = Res
 PRIM_LEAVES = ['Int32', 'Int32(min_value=-5, max_value=5)', 'UInt32', 'Int64', 'UInt64(max_value=18446744073709551615)',
                'Float32', 'Float64(min_value=-1.5, max_value=2.5)', 'Boolean', 'String', 'String(min_length=1, max_length=3)',
                'String(pattern="[a-c]+")', 'Bytes', 'Timestamp("%Y-%m-%dT%H:%M:%SZ")', 'Timestamp("%Y")']
-USER_LEAVES = ['Plain', 'Empty', 'AllOpt', 'C', 'G', 'Res', 'ResC', 'File', 'UOpen', 'UClosed', 'UnionCc', 'UChild', 'UnionCc2', 'UGrand', 'UColl', 'nb.Foreign', 'nb.ForeignU']
-ALIAS_LEAVES = ['APrim', 'AStr', 'APlain', 'ANull', 'AList', 'AliasA', 'AliasU', 'ARes', 'nb.ForeignA']
-NULLABLE_LEAVES = {'ANull'}
+USER_LEAVES = ['Plain', 'Kid', 'Empty', 'AllOpt', 'C', 'G', 'Res', 'ResC', 'File', 'UOpen', 'UClosed', 'UnionCc', 'UChild', 'UnionCc2', 'UGrand', 'UColl', 'nb.Foreign', 'nb.ForeignU']
+ALIAS_LEAVES = ['APrim', 'AStr', 'APlain', 'ANull', 'ANullOpt', 'ANullE', 'ANullU', 'ANullTs', 'AList', 'AliasA', 'AliasU', 'ARes', 'nb.ForeignA', 'nb.ForeignNull']
+NULLABLE_LEAVES = {'ANull', 'ANullOpt', 'ANullE', 'ANullU', 'ANullTs', 'nb.ForeignNull'}
 
 WRAP1 = ['%s?', 'List(%s)', 'List(%s, min_items=1, max_items=2)', 'Map(String, %s)']
 WRAP2 = ['List(%s?)', 'Map(String, List(%s))', 'List(%s)?', 'List(List(%s))', 'Map(String, Map(String, %s))', 'List(Map(String, %s))',
@@ -164,7 +174,7 @@ def shapes(tier):
             out.append(w % x)
     sub = leaves if tier == 'thorough' else [x for i, x in enumerate(leaves) if x in (
         'Int32(min_value=-5, max_value=5)', 'String(pattern="[a-c]+")', 'Bytes', 'Timestamp("%Y")', 'Plain', 'Empty', 'C', 'Res', 'File',
-        'UOpen', 'UnionCc', 'UChild', 'nb.Foreign', 'APlain', 'ANull', 'AliasU', 'nb.ForeignA', 'Float64(min_value=-1.5, max_value=2.5)')]
+        'UOpen', 'UnionCc', 'UChild', 'nb.Foreign', 'APlain', 'ANull', 'ANullOpt', 'nb.ForeignNull', 'AliasU', 'nb.ForeignA', 'Float64(min_value=-1.5, max_value=2.5)')]
     for w in WRAP2:
         for x in sub:
             if ('%s?' in w) and x in NULLABLE_LEAVES:
@@ -195,6 +205,10 @@ def universe(tier, shape_list=None):
     for i, s in enumerate(sl):
         lines.append('alias Z%d = %s' % (i, s))
     lines.append('')
+    # one small struct and one small union per shape: the shape as the type of a real field (set / unset / null) and of a real tag
+    for i, s in enumerate(sl):
+        lines.append('struct Hf%d\n    v %s\n' % (i, s))
+        lines.append('union Ht%d\n    v0\n    t %s\n' % (i, s))
     for i, s in enumerate(sl):
         lines.append('route r%d(%s, %s, %s)' % (i, s, s, s))
     return [('nb.stone', USER_TYPES_NB), ('na.stone', '\n'.join(lines) + '\n')], sl
